@@ -9,8 +9,13 @@ from .contract import *
 
 class ExprMixin:
     # ------------------------------------------------------------------ helpers
+    _fresh_log = None
+
     def fresh(self, sort, name='t'):
-        return z3.FreshConst(sort, name)
+        k = z3.FreshConst(sort, name)
+        if ExprMixin._fresh_log is not None:
+            ExprMixin._fresh_log.append(k)
+        return k
 
     def truthy(self, sv: SV, st: State):
         k = sv.kind
@@ -536,15 +541,40 @@ class ExprMixin:
             return it_sv.t, (it_sv.ty.elem if it_sv.ty else None)
         raise Unsupported('comprehension over %s/%s' % (it_sv.kind, it_sv.cls))
 
-    def eval_with_binding(self, target, elem_sv: SV, exprs, st: State):
-        """evaluate pure expressions with `target` bound to elem_sv; returns list of SV; the heap must not change"""
+    def eval_with_binding(self, target, elem_sv: SV, exprs, st: State, bound=None, guard=None):
+        """evaluate pure expressions with `target` bound to elem_sv; returns list of SV; the heap must not change.
+        Fresh constants created while evaluating (results of calls by contract, witnesses) depend on the bound element:
+        they are replaced by fresh functions applied to it (Skolemisation), so quantifying over the element stays sound."""
         sub = st.fork()
         self.bind_target(target, elem_sv, sub)
+        if guard is not None:
+            sub.pc.append(guard)
         npc = len(sub.pc)
-        vals = [self.ev(x, sub) for x in exprs]
+        saved = ExprMixin._fresh_log
+        ExprMixin._fresh_log = log = []
+        try:
+            vals = [self.ev(x, sub) for x in exprs]
+        finally:
+            ExprMixin._fresh_log = saved
+        if saved is not None:
+            saved.extend(log)
         if any(not z3.eq(sub.h.arr[n], st.h.arr[n]) for n in st.h.arr) or not z3.eq(sub.h.alloc, st.h.alloc):
             raise Unsupported('side effect inside comprehension')
-        return vals, sub.pc[npc:]
+        facts = sub.pc[npc:]
+        if log and bound is not None:
+            subst = [(k, z3.Function(str(k) + '!sk', bound.sort(), k.sort())(bound)) for k in log]
+            facts = [z3.substitute(f, *subst) for f in facts]
+            vals = [self._subst_sv(v, subst) for v in vals]
+        elif log:
+            raise Unsupported('fresh constants under a binder without a bound variable')
+        return vals, facts
+
+    def _subst_sv(self, v: SV, subst):
+        if v.kind == 'tuple':
+            return sv_tuple([self._subst_sv(x, subst) for x in v.elts])
+        if v.t is None:
+            return v
+        return SV(v.kind, z3.substitute(v.t, *subst), v.ty, None, v.py)
 
     def ev_ListComp(self, e, st):
         target, it, ifs = self._comp_parts(e)
@@ -553,12 +583,12 @@ class ExprMixin:
         xv = z3.Const('x!lc%d' % self.uid(), Val)
         x_sv = from_val(xv, elem)
         typing = tag_pred(xv, elem) if (elem is not None and not elem.opt and elem.kind != 'val') else z3.BoolVal(True)
-        vals, facts = self.eval_with_binding(target, x_sv, list(ifs) + [e.elt], st)
+        inl = h.bag(l, xv) > 0
+        vals, facts = self.eval_with_binding(target, x_sv, list(ifs) + [e.elt], st, bound=xv, guard=z3.And(typing, inl))
         cond = z3.And(*[self.truthy(v, st) for v in vals[:-1]]) if ifs else z3.BoolVal(True)
         if facts:
-            cond_facts = z3.And(*facts)
-        else:
-            cond_facts = z3.BoolVal(True)
+            st.assume(z3.ForAll([xv], z3.Implies(z3.And(typing, inl), z3.And(*facts)), patterns=[h.bag(l, xv)]))
+        cond_facts = z3.BoolVal(True)
         out = vals[-1]
         identity = (out.kind == x_sv.kind and out.kind not in ('tuple', 'none') and out.t is not None
                     and x_sv.t is not None and z3.eq(out.t, x_sv.t))
@@ -567,9 +597,9 @@ class ExprMixin:
         B = self.fresh(BagSort, 'lcbag')
         n = self.fresh(z3.IntSort(), 'lclen')
         st.assume(n >= 0); st.assume(n <= h.len(l))
-        inl = h.bag(l, xv) > 0
         if identity:
-            st.assume(z3.ForAll([xv], z3.Implies(z3.And(typing, cond_facts),
+            st.assume(z3.ForAll([xv], z3.Implies(z3.Not(z3.And(typing, inl)), z3.Select(B, xv) == 0), patterns=[z3.Select(B, xv)]))
+            st.assume(z3.ForAll([xv], z3.Implies(z3.And(typing, inl),
                                                  z3.Select(B, xv) == z3.If(z3.And(inl, cond), h.bag(l, xv), 0)),
                                 patterns=[z3.Select(B, xv)]))
             if not ifs:
@@ -612,10 +642,12 @@ class ExprMixin:
         xv = z3.Const('x!nx%d' % self.uid(), Val)
         x_sv = from_val(xv, elem)
         typing = tag_pred(xv, elem) if (elem is not None and not elem.opt and elem.kind != 'val') else z3.BoolVal(True)
-        vals, facts = self.eval_with_binding(target, x_sv, list(ifs) + [e.elt], st)
+        vals, facts = self.eval_with_binding(target, x_sv, list(ifs) + [e.elt], st, bound=xv, guard=z3.And(typing, h.bag(l, xv) > 0))
         cond = z3.And(*[self.truthy(v, st) for v in vals[:-1]]) if ifs else z3.BoolVal(True)
         out = vals[-1]
-        ff = z3.And(*facts) if facts else z3.BoolVal(True)
+        if facts:
+            st.assume(z3.ForAll([xv], z3.Implies(z3.And(typing, h.bag(l, xv) > 0), z3.And(*facts)), patterns=[h.bag(l, xv)]))
+        ff = z3.BoolVal(True)
         k = self.fresh(z3.IntSort(), 'firstk')
         n = self.list_len(l, st)
         j = z3.Int('j!nx')
@@ -642,10 +674,12 @@ class ExprMixin:
         xv = z3.Const('x!aa%d' % self.uid(), Val)
         x_sv = from_val(xv, elem)
         typing = tag_pred(xv, elem) if (elem is not None and not elem.opt and elem.kind != 'val') else z3.BoolVal(True)
-        vals, facts = self.eval_with_binding(target, x_sv, list(ifs) + [e.elt], st)
+        vals, facts = self.eval_with_binding(target, x_sv, list(ifs) + [e.elt], st, bound=xv, guard=z3.And(typing, h.bag(l, xv) > 0))
         cond = z3.And(*[self.truthy(v, st) for v in vals[:-1]]) if ifs else z3.BoolVal(True)
         body = self.truthy(vals[-1], st)
-        ff = z3.And(*facts) if facts else z3.BoolVal(True)
+        if facts:
+            st.assume(z3.ForAll([xv], z3.Implies(z3.And(typing, h.bag(l, xv) > 0), z3.And(*facts)), patterns=[h.bag(l, xv)]))
+        ff = z3.BoolVal(True)
         dom = z3.And(typing, ff, h.bag(l, xv) > 0, cond)
         if is_any:
             # any <=> exists; encoded with a witness so that both directions are usable
